@@ -30,6 +30,7 @@ Class(k) ==
       [] k \in 16..17 -> \E n \in Names, p \in Pws : Auth(n, p)
       [] k \in 18..20 -> IF Cardinality(Defaults) > 1 THEN \E d \in Defaults : Reconfigure(d) ELSE ApiNext
       [] k = 21       -> \E u \in Users, f \in FileStates : ExternalPut(u, f) /\ f.kind # "ok"  \* sprinkle unsupported files
+      [] k = 22       -> \E u \in Users, f \in OkFiles : ExternalPut(u, f) /\ f.aux # "none"     \* records carrying auxiliary data
       [] OTHER        -> ApiNext
 SimNext == /\ Len(hist) < Depth
            /\ Class(sched)
@@ -37,5 +38,17 @@ SimNext == /\ Len(hist) < Depth
            /\ hist' = Append(hist, Rec(files))
 SimInit == Init /\ hist = <<>> /\ sched = RandomElement(Classes)
 SimSpec == SimInit /\ [][SimNext]_svars
+(* Exhaustive mode (BFS): EVERY history of Depth steps of the core operations in which each management operation
+   succeeds (logins may fail) - the harness runs each on one long-lived library object, so that anything an
+   implementation remembers between calls (a verdict, a buffer, a per-user object) meets every short sequence of
+   add / login / update / set-admin / remove / re-add. *)
+ExhOps == \E n \in Users, p \in Pws, a \in BOOLEAN :
+             Add(n, p, a) \/ Update(n, p) \/ SetAdmin(n, a) \/ Remove(n) \/ Auth(n, p)
+ExhNext == /\ Len(hist) < Depth
+           /\ ExhOps
+           /\ last'.op = "auth" \/ last'.res.ok
+           /\ hist' = Append(hist, Rec(files))
+           /\ UNCHANGED sched
+ExhInit == Init /\ hist = <<>> /\ sched = 1
 PrintAtDepth == Len(hist) = Depth => PrintT(<<"H", ToJson(hist)>>)
 =============================================================================
